@@ -112,7 +112,9 @@ def execute(program):
     # named observers only, so that an event without handlers really has none
     ghost.World.observe_names = ['e_success', 'e_failure', 'f_success', 'f_failure', 'exception', 'e_value_changed', 'gok', 'gx']
     try:
-        w = ghost.World(build(program))
+        hl = build(program)
+        w = ghost.World(hl)
+        w.scripts = {h[0]: h[3] for h in hl}
     finally:
         ghost.World.observe_names = None
     flags = FLAGS[fi]
@@ -164,11 +166,30 @@ def judge_event(w, eid, hids, flags, shapes_of, bad, tag):
         n = sum(1 for x in log if x[0] == 'enter' and x[1] == h and x[2] == eid)
         if n != 1:
             bad.append((tag + 'handler-runs', 'handler %s of %s ran %d times' % (h, tag, n)))
-    nexc = sum(1 for x in log if x[0] == 'obs' and x[1] == 'exception' and x[3] == eid)
+    excs = [x for x in log if x[0] == 'obs' and x[1] == 'exception' and x[3] == eid]
+    nexc = len(excs)
     if nexc != raises:
         bad.append((tag + 'exception-count', '%d exception event(s) for %d raising handler(s)' % (nexc, raises)))
+    else:
+        # each exception event describes one of the raises: exception(type, value, traceback, handler=, fevent=)
+        raisers = sorted(x[1] for x in log if x[0] == 'val' and x[2] == eid and x[3] == 'ERR')
+        named = sorted(eval(x[4][1])[0] if x[4] and x[4][1] and x[4][1].startswith('(') else repr(x[4]) for x in excs)
+        if named != raisers:
+            bad.append((tag + 'exception-args', 'the exception events carry the errors of %r, the handlers that raised are %r' % (named, raisers)))
+        for x in excs:
+            typ, eargs, hname, tb_is_list = x[4]
+            if typ != 'Boom' or not tb_is_list:
+                bad.append((tag + 'exception-args', 'exception event with type %r / traceback-is-a-list %r' % (typ, tb_is_list)))
+            hid = eval(eargs)[0] if eargs and eargs.startswith('(') else None
+            plain = hid is not None and not any(y[0] == 'step' and y[1] == hid and y[2] == eid for y in log) \
+                and not isinstance(dict(handler_scripts(w)).get(hid), tuple)
+            if hname not in ((None, 'gh_%s' % hid) if not plain else ('gh_%s' % hid,)):
+                bad.append((tag + 'exception-args', 'exception event for the raise of %s names handler %r' % (hid, hname)))
     name = ev.name
     nfail = sum(1 for x in log if x[0] == 'obs' and x[1] == name + '_failure' and x[2] == eid)
+    for x in log:
+        if x[0] == 'obs' and x[1] == name + '_failure' and x[2] == eid and x[4] != (True, repr('ERR')):
+            bad.append((tag + 'failure-args', '%s_failure carries %r instead of (the event, the error triple)' % (name, x[4])))
     expf = raises if flags.get('failure') else 0
     if nfail != expf:
         bad.append((tag + 'failure-count', '%d %s_failure event(s), expected %d (failure=%r, %d raise(s))'
@@ -180,9 +201,16 @@ def judge_event(w, eid, hids, flags, shapes_of, bad, tag):
         bad.append((tag + ('success-after-failure' if raises and succ else 'success-count'),
                     '%d %s_success event(s), expected %d %s' % (len(succ), name, exps, what)))
     elif succ:
+        sig = log[succ[0]][4]
+        if not nested and sig != (True, repr(exp)):
+            bad.append((tag + 'success-args', '%s_success carries %r instead of (the event, its value %r)' % (name, sig, exp)))
         last = max([i for i, x in enumerate(log) if x[0] in ('enter', 'exit', 'step', 'val') and x[2] == eid] or [-1])
         if succ[0] < last:
             bad.append((tag + 'success-early', '%s_success dispatched before the last handler activity' % name))
+
+
+def handler_scripts(w):
+    return getattr(w, 'scripts', {}).items()
 
 
 def judge(program, w, e, s, quiescent, crashed):
